@@ -86,13 +86,80 @@ fn mutate(rng: &mut Rng, src: &str) -> String {
     format!("{} #Int+ \"x\"\n", src.trim_end())
 }
 
+/// A program whose meaning and diagnostics are decided by implicit-argument resolution: implicit
+/// bindings with random names in random order, instances derived from instances, queries that
+/// resolve to exactly one candidate (value), to several (ambiguity error listing the candidates)
+/// or to none
+fn implicit_subject(rng: &mut Rng) -> String {
+    let syll = ["ka", "zo", "mi", "tu", "re", "xa", "li", "po", "ne", "wu"];
+    let mut names: Vec<String> = Vec::new();
+    while names.len() < 7 {
+        let n = format!("{}{}{}", rng.pick(&syll), rng.pick(&syll), rng.below(10));
+        if !names.contains(&n) {
+            names.push(n);
+        }
+    }
+    let mut s = String::from("#[implicit]\ntype T0 = | T0 Int\n#[implicit]\ntype T1 a = | T1 a\n");
+    let nb = rng.below(6);
+    for k in 0..nb {
+        let name = &names[k];
+        match rng.below(4) {
+            0 => s.push_str(&format!("let {} : T0 = T0 {}\n", name, rng.below(100))),
+            1 => s.push_str(&format!("let {} : T1 Int = T1 {}\n", name, rng.below(100))),
+            2 => s.push_str(&format!("let {} : T1 String = T1 \"s{}\"\n", name, rng.below(100))),
+            _ => s.push_str(&format!("let {} : T1 Float = T1 {}.5\n", name, rng.below(100))),
+        }
+    }
+    if rng.chance(1, 2) {
+        s.push_str(&format!("let {} ?x : [T1 a] -> T1 (Array a) =\n    match x with\n    | T1 y -> T1 [y]\n", names[6]));
+    }
+    s.push_str("let get0 ?x u : [T0] -> () -> T0 = x\nlet get1 ?x u : [T1 a] -> () -> T1 a = x\n");
+    let nq = 1 + rng.below(3);
+    let mut fields = Vec::new();
+    for q in 0..nq {
+        match rng.below(6) {
+            0 => {
+                s.push_str(&format!("let v{} = get0 ()\nlet r{} =\n    match v{} with\n    | T0 i -> i\n", q, q, q));
+                fields.push(format!("r{}", q));
+            }
+            1 => {
+                s.push_str(&format!("let v{} : T1 Int = get1 ()\nlet r{} =\n    match v{} with\n    | T1 i -> i\n", q, q, q));
+                fields.push(format!("r{}", q));
+            }
+            2 => {
+                s.push_str(&format!("let v{} : T1 String = get1 ()\nlet r{} =\n    match v{} with\n    | T1 i -> i\n", q, q, q));
+                fields.push(format!("r{}", q));
+            }
+            3 => {
+                s.push_str(&format!("let v{} : T1 (Array Int) = get1 ()\nlet r{} =\n    match v{} with\n    | T1 i -> i\n", q, q, q));
+                fields.push(format!("r{}", q));
+            }
+            4 => {
+                s.push_str(&format!("let v{} : T1 (Array (Array Float)) = get1 ()\nlet r{} =\n    match v{} with\n    | T1 i -> i\n", q, q, q));
+                fields.push(format!("r{}", q));
+            }
+            _ => {
+                // the element type is left open
+                s.push_str(&format!("let v{} = get1 ()\n", q));
+            }
+        }
+    }
+    if fields.is_empty() {
+        s.push_str("1\n");
+    } else {
+        s.push_str(&format!("{{ {} }}\n", fields.join(", ")));
+    }
+    s
+}
+
 fn history_item(rng: &mut Rng, i: usize) -> Value {
     let ty = {
         let mut g = Gen::new(rng, 4);
         g.any_ty(2)
     };
     let prog = gen::program(rng, &ty, 40, 4);
-    match rng.below(5) {
+    match rng.below(6) {
+        5 => json!({ "kind": "expr", "name": format!("h{}", i), "src": implicit_subject(rng) }),
         0 => json!({ "kind": "module", "name": format!("hm{}", i), "src": prog }),
         1 => json!({ "kind": "bad", "name": format!("h{}", i), "src": mutate(rng, &prog) }),
         2 => json!({ "kind": "prim", "name": format!("h{}", i), "src": format!("{}(prim.error \"boom {}\")\n", PRIM_PREAMBLE, i) }),
@@ -119,7 +186,7 @@ impl Engine for C16 {
 
     fn info(&self) -> EngineInfo {
         EngineInfo {
-            rule: "one run = a generated subject (well typed program, or an ill typed / unparsable mutant of one, optionally importing 1-2 generated inline modules) whose observation = (rendered value, type text, Error::emit_string text) is taken (a) on a fresh VM, (b) on a VM that first executed a generated history of 0-20 unrelated items (expressions, loaded modules, ill typed programs, failing programs; disjoint names), (c) after the same history in a tape-chosen permutation, (d) on a second fresh VM of the same process, (e) on a child thread, (f) under a forced collection schedule, (g) after seeded heap padding (shifts every address), (i) twice on a VM built with a task spawner whose import tasks are polled by the simulator in tape-chosen order (two completion orders), (h) in 1 of 6 runs in a freshly spawned process (new hasher keys, new address space). All observations must be byte-identical. Non-trivial = the history had at least 3 items or the subject produced diagnostics; distinct = distinct workload hash.",
+            rule: "one run = a generated subject (well typed program, or an ill typed / unparsable mutant of one, optionally importing 1-2 generated inline modules; in 1 of 5 runs a program decided by implicit-argument resolution: implicit bindings with random names in random order, derived instances, queries resolving to one candidate, several (ambiguity diagnostics listing the candidates) or none) whose observation = (rendered value, type text, Error::emit_string text) is taken (a) on a fresh VM, (b) on a VM that first executed a generated history of 0-20 unrelated items (expressions, loaded modules, ill typed programs, failing programs; disjoint names), (c) after the same history in a tape-chosen permutation, (d) on a second fresh VM of the same process, (e) on a child thread, (f) under a forced collection schedule, (g) after seeded heap padding (shifts every address), (i) twice on a VM built with a task spawner whose import tasks are polled by the simulator in tape-chosen order (two completion orders), (h) in 1 of 6 runs in a freshly spawned process (new hasher keys, new address space). All observations must be byte-identical. Non-trivial = the history had at least 3 items or the subject produced diagnostics; distinct = distinct workload hash.",
             real: vec!["symbol interning, type variable naming in rendered types and diagnostics, salsa memo tables, code map offsets, Fnv/ordered maps in the compiler, VM evaluation, Error::emit_string rendering"],
             stubbed: vec!["unrelated earlier work = generated history", "address perturbation = seeded padding allocations"],
             not_exercised: vec!["std.random, IO", "different machines / Rust versions"],
@@ -168,6 +235,9 @@ impl Engine for C16 {
             let once = mutate(rng, &subject);
             subject = mutate(rng, &once);
         }
+        if rng.chance(1, 5) {
+            subject = implicit_subject(rng);
+        }
         let nh = *rng.pick(&[0usize, 1, 3, 6, 12, 20]);
         let history: Vec<Value> = (0..nh).map(|i| history_item(rng, i)).collect();
         json!({
@@ -194,6 +264,18 @@ impl Engine for C16 {
             load_subject_modules(&vm, w);
             observe(&vm, subject)
         };
+        if subject.starts_with("#[implicit]") {
+            run::count("implicit_subjects", 1);
+            if reference.contains("Multiple candidates were found") {
+                run::count("implicit_ambiguous", 1);
+            } else if reference.contains("could not be resolved") {
+                run::count("implicit_unresolved", 1);
+            } else if reference.starts_with("OK") {
+                run::count("implicit_resolved", 1);
+            } else {
+                run::count("implicit_other", 1);
+            }
+        }
         let diagnostics = reference.starts_with("ERR");
         let check = |variant: &str, obs: String| -> Result<(), Violation> {
             if obs != reference {
